@@ -70,6 +70,16 @@ def run(rep: Report, ctx: Any) -> str:
     rep.assumptions += ["--output-path, project/package name overrides and the working directory are the user's own (CONFIG)",
                         "post-hook commands come from the configuration"]
     cfgs: dict[str, CFG] = {}
+    # floors are settled when everything has been looked at: a count that falls short aborts the analysis (exit 2) only when nothing has
+    # been reported - a violation that also moves an anchor (the output directory is composed differently, so nothing is recognised as
+    # lying below models/ any more) is reported as the violation it is, not hidden behind the shortfall it causes
+    short_of: list[tuple[str, int, int]] = []
+
+    def floor(what: str, n: int, minimum: int) -> None:
+        rep.indexed[what] = n
+        if n < minimum:
+            short_of.append((what, n, minimum))
+
     # an effect performed by a helper on a path it is handed (`_render_to(path, ...)`) is stated at each call of the helper, with the
     # argument as its path: destinations and the order of effects read the same whether a write is spelled out or routed through a helper
     effs = in_context(ix, effect_sites(ix))
@@ -91,7 +101,7 @@ def run(rep: Report, ctx: Any) -> str:
                 for alt in av.alts}
 
     rep.indexed["effect_sites"] = len(real)
-    rep.floor("effect_destinations", len({d for e, av in real for d in _dests(e, av)}), 11)
+    floor("effect_destinations", len({d for e, av in real for d in _dests(e, av)}), 11)
     proj = ix.cls("Project")
     for e, av in real:
         key = f"{short(e.func)}::{e.what}({norm(e.target)[:50] if e.target is not None else ''})"
@@ -279,7 +289,7 @@ def run(rep: Report, ctx: Any) -> str:
         rep.check(point is not None and cfg.is_dominated_by(s, lambda n: n is point), "R19.2", f"Project.build::{norm(s)[:50]}",
                   "an effect can happen before the existing-directory decision", where(build, s), lhs=norm(s)[:60],
                   rhs="dominated by the decision (mkdir try / test of its result)")
-    rep.floor("effectful_steps_in_build", n_calls, 2)
+    floor("effectful_steps_in_build", n_calls, 2)
     init = proj.methods.get("__init__")
     rep.check(not any(e.func is init for e, _ in real), "R19.2", "Project.__init__::no-effects", "effect in Project.__init__",
               where(init, init.node) if init else "")
@@ -306,7 +316,7 @@ def run(rep: Report, ctx: Any) -> str:
                 if cn in ("setattr", "delattr", "__setattr__") and any(isinstance(a, ast.Constant) and a.value in plumbed for a in n.args):
                     later.append(f"{where(f, n)}: {norm(n)[:60]}")
                 elif any(k.arg in plumbed for k in n.keywords) and callee_of(ix, f, n) is None and not flow.is_ctor(f, n) \
-                        and any(fv is not None and cfgc.name in fv.types for a in n.args for fv in [it.node_av.get(id(a))]):
+                        and any(fv is not None and cfgc.qual in (fv.types or ()) for a in n.args for fv in [it.node_av.get(id(a))]):
                     later.append(f"{where(f, n)}: {norm(n)[:60]} makes a copy of the configuration with another value")
     rep.check(not later, "R19.2", "Config::overwrite-and-output-path-set-once",
               "Config.overwrite / Config.output_path are given a value after the configuration has been built from the command line",
@@ -455,7 +465,7 @@ def run(rep: Report, ctx: Any) -> str:
                 rep.check(lits.startswith("/models/") or lits.startswith("/api/"), "R19.3", f"{short(e.func)}::dynamic-name({dyn[0].text[:40]})",
                           "a file with a document-dependent name is written outside models/ and api/ (never cleaned up)", e.where,
                           lhs=lits, rhs="under /models/ or /api/")
-    rep.floor("writes_below_rebuilt_directories", sum(fresh_total.values()), 4)
+    floor("writes_below_rebuilt_directories", sum(fresh_total.values()), 4)
 
     # ---- R19.4 -----------------------------------------------------------------------------------------------------
     # regenerating converges on what a fresh generation produces only if every file is written (and every hook run) again, whatever
@@ -471,7 +481,11 @@ def run(rep: Report, ctx: Any) -> str:
                   f"`{norm(d.call)[:70]}` happens, or gets its arguments, depending on what the filesystem already holds ({d.on[:3]}): "
                   f"regenerating over an earlier generation no longer gives the tree a fresh generation produces", where(d.func, d.call),
                   lhs=d.on[:3], rhs="decided by the document and the configuration only")
-    rep.floor("state_independent_writes", n_indep, 10)
+    floor("state_independent_writes", n_indep, 10)
+    if short_of:
+        if not rep.findings:
+            rep.floor(*short_of[0])
+        rep.observe("instance counts below their floors, next to the violations reported: " + ", ".join(f"{w}={n} < {m}" for w, n, m in short_of))
     rep.not_decided += ["histories across different metadata flavours (excluded by the property) and file-system races"]
     return LEVEL
 
